@@ -231,6 +231,23 @@ def blit(b):
     return 'true' if b else 'false'
 
 
+def forbidden_vernacular(src):
+    """Admitted proofs, declared axioms, switched-off kernel checks, and Variable/Hypothesis/Context outside a section."""
+    src = strip_comments(src)
+    bad = re.findall(r'\b(Admitted|admit|Axiom|Axioms|Parameter|Parameters|Conjecture|Abort|bypass_check|Admit Obligations|'
+                     r'Unset Guard Checking|Unset Positivity Checking|Unset Universe Checking)\b', src)
+    depth = 0
+    for line in src.split('\n'):
+        if re.match(r'\s*(Section|Module)\b', line):
+            depth += 1
+        elif re.match(r'\s*End\b', line) and depth > 0:
+            depth -= 1
+        elif depth == 0 and re.match(r'\s*(Variables?|Hypothes[ie]s|Context)\b', line):
+            bad.append('outside-section: ' + line.strip()[:50])
+    return bad
+
+
+
 class Ctx:
     def __init__(self, prop, tier='quick', seed=0, replay=None):
         self.prop = prop
@@ -313,10 +330,19 @@ class Ctx:
         src = open(path).read()
         names = re.findall(r'^\s*(?:Theorem|Corollary)\s+([A-Za-z_0-9\']+)', src, re.M)
         self.obligations += len(names)
-        bad = re.findall(r'\b(Admitted|admit|Axiom|Parameter|Conjecture|Abort)\b', strip_comments(src))
+        bad = forbidden_vernacular(src)
         if bad:
             self.broken.append({'kind': 'forbidden', 'detail': 'forbidden vernacular in %s: %s' % (fname, bad)})
             return False
+        # the same scan over every theory file this property file depends on (an unused Admitted lemma would not show
+        # up in Print Assumptions)
+        for m in sorted(theory_closure([path], [])):
+            tf = os.path.join(COQ, 'theories', m + '.v')
+            if os.path.exists(tf):
+                badt = forbidden_vernacular(open(tf).read())
+                if badt:
+                    self.broken.append({'kind': 'forbidden', 'detail': 'forbidden vernacular in theories/%s.v: %s' % (m, badt)})
+                    return False
         with BuildLock():
             for f in extra_files:
                 rc, out = sh(['coqc', *COQFLAGS, f], cwd=COQ, timeout=1200)
